@@ -82,7 +82,7 @@ def walfault_oracle(script, impl):
                     probs.append('%s at byte %d: %s delivered operation(s) were never appended (fabricated)' % ('cut' if op == 'truncall' else 'corruption', pos, fab))
                 if len(probs) > 5:
                     return probs
-        elif op in ('engtrunc', 'engflip'):
+        elif op in ('engtrunc', 'engflip', 'engcutrec'):
             o = out.split()
             res = o[2] if len(o) > 2 else out
             if res.startswith('openerr') or res.startswith('panic'):
